@@ -309,6 +309,27 @@ ADDENDA4 = {
     "C19": " Round 4: R19.8 bounding-box tables: bounding_rect_merge and BoundingRect of Point, Line, Triangle, Rect, LineString, MultiPoint, Polygon, MultiLineString, MultiPolygon evaluated on grid witnesses (None iff no coordinate, else min/max).",
 }
 
+# round 5
+ADDENDA5 = {
+    "C01": " Round 5: R1.14 the point-location kernels relate uses for isolated components and incomplete star labels (Rect / Triangle / Line position, ring step, polygon composition, LineString kernels; shared with C02); R1.15 bounding-box tables (the disjoint-envelope shortcut).",
+    "C02": " Round 5: R2.9 bounding-box tables behind the has_disjoint_bboxes rejections.",
+    "C04": " Round 5: R4.2 rings() decided on concrete shapes by draining the iterator: a member's exterior first, then its interiors, members in order (unary_union reads its fill rule off the first ring).",
+    "C05": " Round 5: R5.9 Orient::orient for Polygon and MultiPolygon on abstract rings (identity + winding; the Winding API answered on the abstraction) for every assignment of input windings and both directions; R5.10 the Rect / Triangle / Line -> Polygon conversions (C18 R18.5).",
+    "C06": " Round 5: R6.9 centroid witness tables of the basic types (degenerate shapes included); R6.10 the area rules of C05 (the weights).",
+    "C07": " Round 5: R7.3 also requires that, inside a hole of one operand, the distance is measured between that hole and the OTHER operand.",
+    "C08": " Round 5: R8.9 traversal tables (every exterior coordinate of every member reaches the hull, empty members in the middle included); R8.10 minimum_rotated_rect tries every hull edge as a direction (hull rings of 3 and 4 vertices, exact unrolling).",
+    "C09": " Round 5: R9.1 additionally: a path that does no engine work may depend on eps only through eps <= 0.",
+    "C10": " Round 5: R10.9 contains_point of the collection impls (Vec<G> and its slice twin) is the disjunction over the members for every valuation.",
+    "C11": " Round 5: R11.8 proper_intersection on every properly crossing pair of grid segments equals the exact rational crossing (numeric evaluation of the extracted table).",
+    "C12": " Round 5: R12.5 closest_point witness tables (Point, Line, LineString, Triangle, Rect, Polygon, MultiPoint; an awkward-float witness for the rounded projection); R12.6 the scan-line height is the bbox mid-height or strictly between it and the next-closest vertex height (polynomial identity).",
+    "C15": " Round 5: R15.6 arc-length laws of the InterpolatableLine entry points on witnesses; R15.7 the deprecated twins line_interpolate_point / line_locate_point on three-segment line strings.",
+    "C16": " Round 5: R16.7 the laws the property states (non-negativity, zero, symmetry, textbook length, bearing range, destination(a, bearing, distance) = b, ratio points) evaluated for Haversine and Rhumb on 132 ordered witness pairs through the extracted path tables.",
+    "C17": " Round 5: R17.1 requires the re-allocated edge to be a clone of the WHOLE cached edge and reports a GeometryGraph::clone_for_arg_index path that returns a derived clone.",
+    "C18": " Round 5: R18.6 also tabulates Rect::to_lines, Triangle::to_lines and From<[c; 3]> for Triangle.",
+    "C19": " Round 5: R19.9 coords_iter / exterior_coords_iter / coords_count on concrete shapes with empty members, iterators drained step by step.",
+    "C20": " Round 5: the IMSegment address tie-break is armed (known finding with a failing input).",
+}
+
 def main():
     props = [json.loads(l) for l in open(os.path.join(HERE, "properties.jsonl"))]
     checks = []
@@ -324,7 +345,7 @@ def main():
                 "evidence_file": "/verif/evidence/%s.json" % pid,
                 "replay_cmd_template": "./check %s --explain {path}" % pid,
                 "engine": "geofacts+rules",
-                "level_claimed": {"category": c["category"], "text": c["text"] + ADDENDA.get(pid, "") + ADDENDA4.get(pid, ""), "design_ref": c["design_ref"]},
+                "level_claimed": {"category": c["category"], "text": c["text"] + ADDENDA.get(pid, "") + ADDENDA4.get(pid, "") + ADDENDA5.get(pid, ""), "design_ref": c["design_ref"]},
                 "level_note": c["note"],
                 "technique": c["technique"],
             })
